@@ -314,6 +314,8 @@ impl<'p> CoroutinePool<'p> {
             self.notify(task_id);
             return Ok(r);
         }
+        #[cfg(feature = "verif")]
+        crate::verif::pause("wait.after_first_take");
         if SchedulableCoroutine::current().is_some() {
             let timeout_time = get_timeout_time(wait_time);
             loop {
@@ -337,12 +339,16 @@ impl<'p> CoroutinePool<'p> {
             assert!(self.waits.insert(task_id, arc.clone()).is_none());
             arc
         };
+        #[cfg(feature = "verif")]
+        crate::verif::pause("wait.after_register");
         // the task may have finished between the first look and the registration above,
         // in which case nobody will notify us: look again before blocking
         if let Some(r) = self.try_take_task_result(task_id) {
             self.notify(task_id);
             return Ok(r);
         }
+        #[cfg(feature = "verif")]
+        crate::verif::pause("wait.before_block");
         let (lock, cvar) = &*arc;
         drop(
             cvar.wait_timeout_while(
@@ -461,10 +467,14 @@ impl<'p> CoroutinePool<'p> {
                 _ = self.no_waits.remove(&task_id);
                 return;
             }
+            #[cfg(feature = "verif")]
+            crate::verif::pause("run.before_result_insert");
             assert!(
                 self.results.insert(task_id, result).is_none(),
                 "The previous result was not retrieved in a timely manner"
             );
+            #[cfg(feature = "verif")]
+            crate::verif::pause("run.before_notify");
             self.notify(task_id);
         })
     }
